@@ -93,7 +93,7 @@ fn expr_regions(e: &Value, out: &mut Vec<String>) {
 
 /// What the property demands, in Rust (semantics of each instruction kind written out).  Used only to judge the
 /// replay of a recorded history (a rejection of the trace validation); the primary oracle is MemAccess.tla.
-fn rule(i: &Value, sigs: &Value) -> Value {
+pub fn rule(i: &Value, sigs: &Value) -> Value {
     let name = |v: &Value| s(v, "name");
     let operand = |v: &Value| -> Vec<String> { if v["t"] == "mref" { vec![s(&v["m"], "name")] } else { vec![] } };
     let mut exprs = vec![];
